@@ -386,6 +386,18 @@ def gen_slotpre(rng):
     return sc
 
 
+def gen_slotren(rng):
+    """reneging at slotted nodes (capacitated pre-emptive or not): a customer that has started service never reneges,
+    also after its service was interrupted at a slot"""
+    sc = gen_slotpre(rng) if rng.random() < 0.7 else gen_slot(rng)
+    K, N = sc["K"], sc["N"]
+    sc["patS"] = [[(samples(rng, 1, 9, 2) if (n == 0 or rng.random() < 0.5) else []) for _ in range(K)] for n in range(N)]
+    for n, nd in enumerate(sc["nodes"]):
+        if nd.get("kind") != "slot":
+            sc["patS"][n] = [[] for _ in range(K)] if nd.get("c", 1) >= INF else sc["patS"][n]
+    return sc
+
+
 def gen_renegesched(rng):
     """reneging at nodes with (pre-emptive or not) server schedules, including zero-server shifts"""
     K = rng.choice([1, 2])
@@ -896,6 +908,7 @@ def gen_stopcount(rng):
 
 
 FAMILIES = {
+    "slotren": gen_slotren,
     "ppccw": gen_ppccw,
     "eps": gen_eps,
     "stopcount": gen_stopcount,
